@@ -268,9 +268,18 @@ class Builder:
             if k == "addc":
                 return ift.Adder(self.field(t["c"], t["c_im"]), neg=t["neg"]) @ a
             if k == "mulc":
+                if self.flip(t, "staticeinsum"):
+                    n = len(t["d"])
+                    mle = ift.MultiLinearEinsum(ift.MultiDomain.make({"e0": self.sp(n)}), "i,i->i", key_order=("st", "e0"),
+                                                static_mf=ift.MultiField.from_dict({"st": self.field(t["d"], t["d_im"])}))
+                    return mle @ a.ducktape_left("e0")
                 return ift.makeOp(self.field(t["d"], t["d_im"])) @ a
             if k == "lin":
                 m = (np.array(t["rows"], dtype=np.float64) + 1j * np.array(t["rows_im"], dtype=np.float64)).reshape(t["m"], t["n"])
+                if self.flip(t, "lineinsum"):
+                    dm = ift.DomainTuple.make((self.sp(t["m"])[0], self.sp(t["n"])[0]))
+                    mf = ift.MultiField.from_dict({"mat": ift.makeField(dm, m)})
+                    return ift.LinearEinsum(self.sp(t["n"]), mf, "ij,j->i", key_order=("mat",)) @ a
                 if t["m"] == t["n"]:
                     return ift.MatrixProductOperator(self.sp(t["n"]), m) @ a
                 return dense_op(ift, self.sp(t["n"]), self.sp(t["m"]), m) @ a
@@ -983,9 +992,111 @@ class Gen:
             out = pyeval(t, env)
             if not all(_ok_all(v) for v in out.values()):
                 continue
+            if model_cost(ship(strip(t)), sum(len(v) for v in env.values()), True) > COST_LIMIT:
+                continue     # the closure-tree model would be astronomically slow on this tree (see `model_cost`)
             return dict(indom={k: len(v) for k, v in env.items()}, x={k: fl(v) for k, v in env.items()}, expr=strip(t),
                         wm=wm, space=self.space)
         raise RuntimeError("generator exhausted")
+
+
+# ---------------------------------------------------------------------------------------------- cost of the model evaluation
+# The Lean model is a tree of closures without sharing: an element of a node's value / Jacobian / cotangent re-evaluates the
+# sub-trees it reads.  Fan-ins multiply along a path (dense maps, two-operand einsums), so a few nested large einsums make the
+# DRIVER (not the real code) astronomically slow.  `model_cost` mirrors the evaluation rules of Model/Expr.lean on a shipped tree
+# and the generator rejects trees above `COST_LIMIT` elementary operations.
+COST_LIMIT = 2_000_000
+
+
+def _osz(e):
+    t = e["t"]
+    if t == "var":
+        return e["n"]
+    if t in ("lin", "bil"):
+        return e["m"]
+    if t in ("sum", "vdot", "sqnorm", "quad", "gauss", "varcov", "const"):
+        return 1
+    if t == "chain":
+        return _osz(e["f"])
+    if t in ("add", "sub", "mul"):
+        return max(_osz(e["a"]), _osz(e["b"]))
+    return _osz(e["a"])
+
+
+def _isn(x):
+    return isinstance(x, dict) and "t" in x
+
+
+def _up(e, leaf=(1, 1)):
+    """(cost of one value element, cost of one Jacobian element)"""
+    t = e["t"]
+    if t == "var":
+        return leaf
+    if t == "const":
+        return (1, 1)
+    if t == "chain":
+        return _up(e["f"], _up(e["g"], leaf))
+    a = _up(e["a"], leaf) if _isn(e.get("a")) else (1, 1)
+    b = _up(e["b"], leaf) if _isn(e.get("b")) else (1, 1)
+    if t in ("add", "sub"):
+        return (a[0] + b[0], a[1] + b[1])
+    if t == "mul":
+        return (a[0] + b[0], a[0] + b[0] + a[1] + b[1])
+    if t == "ptw":
+        return (a[0] + 1, a[0] + a[1] + 1)
+    if t == "lin":
+        return (e["n"] * a[0], e["n"] * a[1])
+    n = _osz(e["a"]) if _isn(e.get("a")) else 1
+    if t == "sum":
+        return (n * a[0], n * a[1])
+    if t == "vdot":
+        return (n * (a[0] + b[0]), n * (a[0] + b[0] + a[1] + b[1]))
+    if t in ("sqnorm", "quad", "gauss"):
+        return (n * a[0], n * (a[0] + a[1]))
+    if t == "bil":
+        f = e["na"] * e["nb"]
+        return (f * (a[0] + b[0]), f * (a[0] + b[0] + a[1] + b[1]))
+    if t == "varcov":
+        return (3 * n * (a[0] + b[0]), n * (3 * a[0] + 3 * b[0] + a[1] + b[1]))
+    return (a[0] + 1, a[1] + 1)
+
+
+def _down(e, cy, leaf=(1, 1), cont=None):
+    """cost of ONE adjoint application on all input entries when one cotangent element costs `cy`"""
+    t = e["t"]
+    if t == "var":
+        return cont(cy) if cont else e["n"] * cy
+    if t == "const":
+        return 0
+    if t == "chain":
+        return _down(e["f"], cy, _up(e["g"], leaf), lambda c: _down(e["g"], c, leaf, cont))
+    a = _up(e["a"], leaf) if _isn(e.get("a")) else (1, 1)
+    b = _up(e["b"], leaf) if _isn(e.get("b")) else (1, 1)
+    D = lambda ch, c: _down(e[ch], c, leaf, cont)
+    if t in ("add", "sub"):
+        return D("a", cy) + D("b", cy)
+    if t in ("mul", "vdot"):
+        return D("a", cy + b[0]) + D("b", cy + a[0])
+    if t == "ptw":
+        return D("a", cy + a[0] + 1)
+    if t == "lin":
+        return D("a", e["m"] * cy)
+    if t in ("sqnorm", "quad", "gauss"):
+        return D("a", cy + a[0])
+    if t == "bil":
+        return D("a", e["m"] * e["nb"] * (b[0] + cy)) + D("b", e["m"] * e["na"] * (a[0] + cy))
+    if t == "varcov":
+        return D("a", cy + 2 * (a[0] + b[0])) + D("b", cy + 2 * (a[0] + b[0]))
+    return D("a", cy + 1)
+
+
+def model_cost(shipped, nin, wm=True):
+    """estimated elementary operations of the driver for value + dense Jacobian + dense adjoint (+ dense metric)"""
+    nout = _osz(shipped)
+    cv, cj = _up(shipped)
+    tot = nout * cv + nin * nout * cj + nout * _down(shipped, 1)
+    if wm:
+        tot += nin * _down(shipped, cj)
+    return tot
 
 
 # ---------------------------------------------------------------------------------------------- Linearization arithmetic
